@@ -131,6 +131,16 @@ struct LockSt {
     exp_w: AtomicBool,
     vis_m: AtomicBool,
     vis_w: AtomicBool,
+    // evidence of observation O2 (std::thread::panicking() is a per-thread counter), per lock:
+    // o2a: a write guard was dropped by a genuine panic that started inside it, but thread::panicking() was false right
+    //      after the drop (the coroutine was resumed by another thread while it unwinds / the counter of this thread
+    //      had been left at -1), or it was true already when the guard was made (another coroutine suspended inside
+    //      its unwinding on this thread): the poisoning is lost
+    // o2b: a guard was dropped NORMALLY while thread::panicking() was true: spurious poisoning
+    o2a_m: AtomicBool,
+    o2a_w: AtomicBool,
+    o2b_m: AtomicBool,
+    o2b_w: AtomicBool,
 }
 
 struct Sh {
@@ -246,13 +256,32 @@ struct After<'a> {
     l: &'a LockSt,
     kind: LK,
     armed: Cell<bool>,
+    /// thread::panicking() was true when the guard was made although this coroutine was not unwinding
+    stale: Cell<bool>,
+}
+impl<'a> After<'a> {
+    fn new(l: &'a LockSt, kind: LK) -> After<'a> {
+        After { l, kind, armed: Cell::new(false), stale: Cell::new(false) }
+    }
 }
 impl Drop for After<'_> {
     fn drop(&mut self) {
         if self.armed.get() {
+            // the guard has just been dropped by the unwinding, on this thread
+            let lost = !std::thread::panicking() || self.stale.get();
             match self.kind {
-                LK::M => self.l.vis_m.store(true, SeqCst),
-                LK::W => self.l.vis_w.store(true, SeqCst),
+                LK::M => {
+                    if lost {
+                        self.l.o2a_m.store(true, SeqCst);
+                    }
+                    self.l.vis_m.store(true, SeqCst)
+                }
+                LK::W => {
+                    if lost {
+                        self.l.o2a_w.store(true, SeqCst);
+                    }
+                    self.l.vis_w.store(true, SeqCst)
+                }
                 LK::R => {}
             }
         }
@@ -312,6 +341,17 @@ fn block_forever(sh: &Sh, j: usize, how: u64) -> ! {
     let mut n = 0u64;
     loop {
         n += 1;
+        if n == 3000 && std::env::var("MAYV_O2TAG").is_ok() && sh.cancel_req[j].load(SeqCst) && std::thread::panicking() {
+            // not unwinding ourselves, cancelled, and the cancellation point keeps returning: check_cancel is suppressed
+            // by `!thread::panicking()` - another coroutine is suspended inside its unwinding on this thread (or the
+            // thread's counter was left wrong).  This loop never leaves the worker: end the run here
+            let c = mayv::ctx();
+            c.fail(format!(
+                "O2c: coroutine {j} was cancelled but its cancellation point (kind {}) returned 3000 times without raising the cancel panic while std::thread::panicking() is true on its thread",
+                how % 3
+            ));
+            mayv::finish(mayv::ctl(), 0);
+        }
         if n == 2000 && std::env::var("MAYV_TLSCHECK").is_ok() {
             println!(
                 "NOTE a coroutine blocked at a cancellable call (kind {}) was resumed 2000 times without being cancelled; thread::panicking() = {} on thread {}",
@@ -370,13 +410,26 @@ fn inside(x: u64) {
     }
 }
 
-fn check_obs(j: usize, what: &str, err: bool, vis_before: bool, exp: &AtomicBool) {
+/// prefix of an oracle text: the failure has the signature of observation O2 (evidence flag set) and the run asks for
+/// the tag (MAYV_O2TAG=1: the known-finding variants)
+fn o2p(tag: &str, evidence: &AtomicBool) -> String {
+    if std::env::var("MAYV_O2TAG").is_ok() && evidence.load(SeqCst) {
+        format!("{tag}: ")
+    } else {
+        String::new()
+    }
+}
+
+fn check_obs(j: usize, what: &str, err: bool, vis_before: bool, exp: &AtomicBool, o2a: &AtomicBool, o2b: &AtomicBool) {
     let c = mayv::ctx();
     if err && !exp.load(SeqCst) {
-        c.fail(format!("coroutine {j}: {what} reports Poisoned but no panic has unwound a write guard of this lock"));
+        c.fail(format!("{}coroutine {j}: {what} reports Poisoned but no panic has unwound a write guard of this lock", o2p("O2b", o2b)));
     }
     if !err && vis_before {
-        c.fail(format!("coroutine {j}: {what} reports Ok although a panic had dropped a write guard of this lock before the call"));
+        c.fail(format!(
+            "{}coroutine {j}: {what} reports Ok although a panic had dropped a write guard of this lock before the call",
+            o2p("O2a", o2a)
+        ));
     }
 }
 
@@ -408,12 +461,13 @@ fn body(sh: Arc<Sh>, j: usize) -> u64 {
         match op.kind {
             LK::M => {
                 let vis = l.vis_m.load(SeqCst);
-                let after = After { l, kind: LK::M, armed: Cell::new(false) };
+                let after = After::new(l, LK::M);
                 let (mut g, err) = match l.m.lock() {
                     Ok(g) => (g, false),
                     Err(e) => (e.into_inner(), true),
                 };
-                check_obs(j, "Mutex::lock", err, vis, &l.exp_m);
+                check_obs(j, "Mutex::lock", err, vis, &l.exp_m, &l.o2a_m, &l.o2b_m);
+                after.stale.set(std::thread::panicking());
                 let occ = Occ::enter(l, LK::M, j);
                 *g += 1;
                 l.incs_m.fetch_add(1, SeqCst);
@@ -422,20 +476,24 @@ fn body(sh: Arc<Sh>, j: usize) -> u64 {
                     return finish(&sh, j, &p, Some((l, LK::M, &after)));
                 }
                 drop(occ);
-                if std::thread::panicking() && std::env::var("MAYV_TLSCHECK").is_ok() {
-                    println!("NOTE body {j} drops its Mutex guard NORMALLY while thread::panicking() = true on thread {}", mayv::tid());
+                if std::thread::panicking() {
+                    l.o2b_m.store(true, SeqCst);
+                    if std::env::var("MAYV_TLSCHECK").is_ok() {
+                        println!("NOTE body {j} drops its Mutex guard NORMALLY while thread::panicking() = true on thread {}", mayv::tid());
+                    }
                 }
                 drop(g);
                 drop(after);
             }
             LK::W => {
                 let vis = l.vis_w.load(SeqCst);
-                let after = After { l, kind: LK::W, armed: Cell::new(false) };
+                let after = After::new(l, LK::W);
                 let (mut g, err) = match l.rw.write() {
                     Ok(g) => (g, false),
                     Err(e) => (e.into_inner(), true),
                 };
-                check_obs(j, "RwLock::write", err, vis, &l.exp_w);
+                check_obs(j, "RwLock::write", err, vis, &l.exp_w, &l.o2a_w, &l.o2b_w);
+                after.stale.set(std::thread::panicking());
                 let occ = Occ::enter(l, LK::W, j);
                 *g += 1;
                 l.incs_w.fetch_add(1, SeqCst);
@@ -444,17 +502,20 @@ fn body(sh: Arc<Sh>, j: usize) -> u64 {
                     return finish(&sh, j, &p, Some((l, LK::W, &after)));
                 }
                 drop(occ);
+                if std::thread::panicking() {
+                    l.o2b_w.store(true, SeqCst);
+                }
                 drop(g);
                 drop(after);
             }
             LK::R => {
                 let vis = l.vis_w.load(SeqCst);
-                let after = After { l, kind: LK::R, armed: Cell::new(false) };
+                let after = After::new(l, LK::R);
                 let (g, err) = match l.rw.read() {
                     Ok(g) => (g, false),
                     Err(e) => (e.into_inner(), true),
                 };
-                check_obs(j, "RwLock::read", err, vis, &l.exp_w);
+                check_obs(j, "RwLock::read", err, vis, &l.exp_w, &l.o2a_w, &l.o2b_w);
                 let occ = Occ::enter(l, LK::R, j);
                 let _ = *g;
                 inside(op.inside);
@@ -531,12 +592,13 @@ fn spawn_owner(sh: &Arc<Sh>, select: bool, o2: bool, may_wait_unwinding: bool, r
             sh2.exec[j].fetch_add(1, SeqCst);
             let l = &sh2.locks[k];
             let vis = l.vis_m.load(SeqCst);
-            let after = After { l, kind: LK::M, armed: Cell::new(false) };
+            let after = After::new(l, LK::M);
             let (mut g, err) = match l.m.lock() {
                 Ok(g) => (g, false),
                 Err(e) => (e.into_inner(), true),
             };
-            check_obs(j, "Mutex::lock (scope owner)", err, vis, &l.exp_m);
+            check_obs(j, "Mutex::lock (scope owner)", err, vis, &l.exp_m, &l.o2a_m, &l.o2b_m);
+            after.stale.set(std::thread::panicking());
             let _occ = Occ::enter(l, LK::M, j);
             *g += 1;
             l.incs_m.fetch_add(1, SeqCst);
@@ -579,6 +641,127 @@ fn spawn_owner(sh: &Arc<Sh>, select: bool, o2: bool, may_wait_unwinding: bool, r
     (j, h, 2 + 4 * p)
 }
 
+/// MAYV_O2MODE=b | c: the two one-thread consequences of observation O2, deterministically (MAYV_WORKERS=1, no sleeps).
+/// A scope owner O has two children: A panics (payload p), B runs on until it is released.  O joins A first, re-raises
+/// p and - unwinding - waits in Drop for Scope for B: O is suspended INSIDE its unwinding and the worker runs the other
+/// coroutines with std::thread::panicking() = true.
+///   b: C, a well-behaved coroutine that took Mutex 0 before, drops its guard normally now: the Mutex is poisoned; D, a
+///      later locker, is told so.
+///   c: C, a cancelled coroutine, loops on yield_now(): check_cancel never raises, the loop never leaves the worker.
+fn o2_script(ctx: &Ctx, sh: &Arc<Sh>, mode: &str) {
+    let c_ready = Arc::new(AtomicBool::new(false));
+    let c_done = Arc::new(AtomicBool::new(false));
+    let p = 7777u64;
+    // C is spawned by O, so that both are in the worker's local queue (a coroutine that loops on yield_now() would
+    // keep the worker away from its global queue)
+    let jc = sh.next.fetch_add(1, SeqCst);
+    let slot: Arc<std::sync::Mutex<Option<H>>> = Arc::new(std::sync::Mutex::new(None));
+    let (sh2, r2, d2, m2) = (sh.clone(), c_ready.clone(), c_done.clone(), mode.to_string());
+    let c_body = move || -> u64 {
+        sh2.exec[jc].fetch_add(1, SeqCst);
+        let l = &sh2.locks[0];
+        if m2 == "b" {
+            let vis = l.vis_m.load(SeqCst);
+            let after = After::new(l, LK::M);
+            let (mut g, err) = match l.m.lock() {
+                Ok(g) => (g, false),
+                Err(e) => (e.into_inner(), true),
+            };
+            check_obs(jc, "Mutex::lock", err, vis, &l.exp_m, &l.o2a_m, &l.o2b_m);
+            let occ = Occ::enter(l, LK::M, jc);
+            *g += 1;
+            l.incs_m.fetch_add(1, SeqCst);
+            r2.store(true, SeqCst);
+            // hold the guard until the owner is inside its unwinding (what this thread's counter says), at most a while
+            for _ in 0..5000 {
+                if std::thread::panicking() {
+                    break;
+                }
+                may::coroutine::yield_now();
+            }
+            drop(occ);
+            if std::thread::panicking() {
+                l.o2b_m.store(true, SeqCst);
+            }
+            drop(g);
+            drop(after);
+            d2.store(true, SeqCst);
+            1
+        } else {
+            for _ in 0..5000 {
+                if std::thread::panicking() {
+                    break;
+                }
+                may::coroutine::yield_now();
+            }
+            r2.store(true, SeqCst);
+            // main cancels us now; every yield_now is a cancellation point
+            block_forever(&sh2, jc, 0)
+        }
+    };
+    // O
+    let jo = sh.next.fetch_add(1, SeqCst);
+    let (sh3, d3, slot3) = (sh.clone(), c_done.clone(), slot.clone());
+    let ho = unsafe {
+        may::coroutine::spawn(move || -> u64 {
+            sh3.exec[jo].fetch_add(1, SeqCst);
+            *slot3.lock().unwrap() = Some(may::coroutine::spawn(c_body));
+            may::coroutine::yield_now();
+            may::coroutine::scope(|s| {
+                // registered first = joined last: the owner waits for it while it already unwinds
+                s.spawn(|| {
+                    for _ in 0..20000 {
+                        if d3.load(SeqCst) {
+                            break;
+                        }
+                        may::coroutine::yield_now();
+                    }
+                });
+                s.spawn(move || {
+                    may::coroutine::yield_now();
+                    panic_any(p)
+                });
+            });
+            mayv::ctx().fail(format!("scope owner {jo}: scope() returned normally although a child panicked"));
+            0
+        })
+    };
+    let hc = loop {
+        if let Some(h) = slot.lock().unwrap().take() {
+            break h;
+        }
+        ctx.yield_now();
+    };
+    if mode == "c" {
+        while !c_ready.load(SeqCst) {
+            ctx.yield_now();
+        }
+        sh.cancel_req[jc].store(true, SeqCst);
+        unsafe { hc.coroutine().cancel() };
+        join_check(sh, jc, hc, 3, "cancelled coroutine");
+        c_done.store(true, SeqCst);
+    } else {
+        join_check(sh, jc, hc, 1 + 4, "well-behaved coroutine");
+    }
+    join_check(sh, jo, ho, 2 + 4 * p, "scope owner");
+    // D: a later locker of Mutex 0 (nobody panicked inside it)
+    let jd = sh.next.load(SeqCst);
+    sh.forced[jd].store(900_001, SeqCst);
+    let (jd, hd) = spawn_body(sh);
+    let _ = jd;
+    let sh4 = sh.clone();
+    let he = unsafe {
+        may::coroutine::spawn(move || {
+            let l = &sh4.locks[0];
+            let vis = l.vis_m.load(SeqCst);
+            let err = l.m.lock().is_err();
+            check_obs(0, "Mutex::lock (later)", err, vis, &l.exp_m, &l.o2a_m, &l.o2b_m);
+        })
+    };
+    he.join().ok();
+    join_check(sh, jd, hd, 1 + 4 * 900_001, "probe coroutine");
+}
+
 fn main() {
     let mut cfg = Config::from_env();
     cfg.max_steps = envn("MAYV_MAX_STEPS", 2_000_000);
@@ -612,6 +795,10 @@ fn main() {
                 exp_w: AtomicBool::new(false),
                 vis_m: AtomicBool::new(false),
                 vis_w: AtomicBool::new(false),
+                o2a_m: AtomicBool::new(false),
+                o2a_w: AtomicBool::new(false),
+                o2b_m: AtomicBool::new(false),
+                o2b_w: AtomicBool::new(false),
             })
             .collect(),
         exec: (0..MAXC).map(|_| AtomicU32::new(0)).collect(),
@@ -640,7 +827,11 @@ fn main() {
         // the scheduler is created by the first spawn
         unsafe { may::coroutine::spawn(|| {}) }.join().ok();
         let mut panicked_before_last_round = false;
-        for round in 0..rounds {
+        let o2mode = std::env::var("MAYV_O2MODE").unwrap_or_default();
+        if !o2mode.is_empty() {
+            o2_script(ctx, &sh, &o2mode);
+        }
+        for round in 0..(if o2mode.is_empty() { rounds } else { 0 }) {
             let mut hs: Vec<(usize, H)> = vec![];
             let mut owners: Vec<(usize, H, u64)> = vec![];
             let cancel_round = |sh: &Arc<Sh>, hs: &Vec<(usize, H)>, r: &mut Rng| {
@@ -710,8 +901,10 @@ fn main() {
             for (name, exp, pois) in [("Mutex", &l.exp_m, l.m.is_poisoned()), ("RwLock", &l.exp_w, l.rw.is_poisoned())] {
                 let e = exp.load(SeqCst);
                 if pois != e {
+                    let (o2a, o2b) = if name == "Mutex" { (&l.o2a_m, &l.o2b_m) } else { (&l.o2a_w, &l.o2b_w) };
                     ctx.fail(format!(
-                        "{name} {k}: is_poisoned() = {pois} at the end, but {} panic unwound one of its write guards",
+                        "{}{name} {k}: is_poisoned() = {pois} at the end, but {} panic unwound one of its write guards",
+                        if e { o2p("O2a", o2a) } else { o2p("O2b", o2b) },
                         if e { "a" } else { "no" }
                     ));
                 }
